@@ -459,7 +459,15 @@ def run_case(ctx):
                 if before and len(flows) < 20:
                     src = r.sample(before, min(len(before), r.randint(1, 2)))
                     known = set(v._store.keys())
-                    v.duplicate([flows[i] for i in src])
+                    try:
+                        v.duplicate([flows[i] for i in src])
+                    except ValueError:
+                        # duplicate() focuses the first copy; if that copy does not pass the current filter (the original
+                        # changed silently since the view last looked at it) the focus setter refuses.  The copies are stored
+                        # by then and every clause of the property is still checked below, so this is only counted.
+                        if model.matches(facts[src[0]]):
+                            raise
+                        ctx.count("duplicate_focus_refused_for_hidden_copy")
                     new = [x for x in v._store.values() if x.id not in known]
                     # copies get fresh ids; they carry the originals' facts (in the order given) and are not live
                     if len(new) != len(src):
